@@ -34,3 +34,8 @@ chk("C03", "metamorphic PBT: one generated program compiled under every scratch_
     "No evaluator involved: the same generated program (optimiser-trigger biased) is compiled under all option settings and 4-5 versions and run on the same generated contexts; any difference in verdict, value, ordered effects or final user-numbered slots, or (for variants differing only in the slot optimisation) in what a routine leaves on the stack at any exit, is a violation.",
     "Trusts vf/avm semantics. Caller-owned stack (spilled local slots) is excluded from the exit comparison because the optimiser legitimately changes the number of slots.",
     "DESIGN.md section 2 C03")
+
+chk("C17", "PBT over recipes with un-initialised variable uses; oracle = independent definite-assignment dataflow analysis on the recipe (must-reject / must-accept / reported load), plus dynamic uninitialised-read tracking on the reference interpreter",
+    "Generated routines sprinkle loads and stores of local scratch variables over every control-flow shape; an independently written definite-assignment analysis over the recipe decides whether a store-free path to a load exists. Compilation must fail (naming a load of a flagged variable) exactly then; accepted programs are executed with uninitialised-read tracking.",
+    "Trusts vf/recipe/dataflow.py (structured-control-flow semantics of the docs). Loads in dead code after an exit may be rejected or accepted (PyTeal merges blocks before checking); by-ref/dynamic writes are outside the generator.",
+    "DESIGN.md section 2 C17")
